@@ -25,8 +25,20 @@ PY = "/venv/bin/python"
 class Tree:
     def __init__(self, patch=None):
         self.dir = tempfile.mkdtemp(prefix="vf-seed-")
-        self.wt = os.path.join(self.dir, "wt")
-        subprocess.run(["git", "-C", "/repo", "worktree", "add", "-q", "--detach", self.wt, "HEAD"], check=True)
+        # a unique basename: git derives the worktree's administrative name from it, and
+        # several of these are created in parallel
+        self.wt = os.path.join(self.dir, "wt-" + os.path.basename(self.dir))
+        for attempt in range(5):
+            r = subprocess.run(["git", "-C", "/repo", "worktree", "add", "-q", "--detach", self.wt, "HEAD"], stdout=subprocess.PIPE, stderr=subprocess.STDOUT)
+            if r.returncode == 0:
+                break
+            shutil.rmtree(self.wt, ignore_errors=True)
+            subprocess.run(["git", "-C", "/repo", "worktree", "prune"], stdout=subprocess.DEVNULL, stderr=subprocess.DEVNULL)
+            import time as _t
+
+            _t.sleep(1 + attempt)
+        else:
+            raise RuntimeError("git worktree add failed: %s" % r.stdout.decode()[-300:])
         self.applied = None
         if patch:
             r = subprocess.run(["git", "-C", self.wt, "apply", "--whitespace=nowarn", patch], stdout=subprocess.PIPE, stderr=subprocess.STDOUT)
